@@ -728,8 +728,9 @@ func (cpu *CPU) ChangeRegisterSizes_X() {
 		cpu.RXl = uint8(cpu.RX)
 		cpu.RYl = uint8(cpu.RY)
 	} else {
-		cpu.RX = cpu.RX&0xff00 | uint16(cpu.RXl)
-		cpu.RY = cpu.RY&0xff00 | uint16(cpu.RYl)
+		// while X was 1 the high bytes of the index registers were forced to zero
+		cpu.RX = uint16(cpu.RXl)
+		cpu.RY = uint16(cpu.RYl)
 	}
 }
 
